@@ -12,8 +12,6 @@ import (
 	"verif/internal/h"
 
 	"github.com/relab/gorums"
-	"google.golang.org/grpc"
-	"google.golang.org/grpc/credentials/insecure"
 )
 
 type sortKey struct {
@@ -70,7 +68,7 @@ func RunSorters(e *Env) {
 	}()
 	var mgrs []*gorums.RawManager
 	for m := 0; m < 3; m++ {
-		mgr := gorums.NewRawManager(gorums.WithDialTimeout(50*time.Millisecond), gorums.WithGrpcDialOptions(grpc.WithTransportCredentials(insecure.NewCredentials())))
+		mgr := gorums.NewRawManager(gorums.WithDialTimeout(50*time.Millisecond), gorums.WithGrpcDialOptions(h.DialOpts()...))
 		mgrs = append(mgrs, mgr)
 		for k := 0; k < 10; k++ {
 			host := fmt.Sprintf("127.0.0.%d", 1+k%3)
